@@ -1,7 +1,13 @@
 """C02 - acknowledgement happens exactly once and never before the configured point."""
+import json
+import random
+import zlib
+
 import common as C
 import pipeline_lib as L
+import recv_props as R
 import srctie
+from cli_args import add_harmless
 
 META = dict(
     id="C02",
@@ -17,7 +23,12 @@ META = dict(
                "sequences (compared inside Coq), and the Boolean form of the statement is evaluated on every observed "
                "sequence; a Python oracle re-checks the statement at every prefix of the real log. Ack callables are plain functions, "
                "`async def`s, or plain functions returning a Future / Task / object with __await__ (the acknowledgement of the last is "
-               "made only when it is awaited).",
+               "made only when it is awaited). Second family (implementation only, no model): whole runs of the real "
+               "Receiver.listen() - prefetcher, hand-over queue, runner, one callback task per message - on saturating "
+               "lock-step backlogs (several slots free at once, the runner dispatches several queued messages in one step), "
+               "stop requests, budgets, with the statement re-checked over the raw log of the ack callables, task bodies "
+               "and result backend: no ack callable called twice, none before its configured point, every ackable valid "
+               "message whose processing is complete acknowledged exactly once.",
     level_note="Scope (the reading that demands less): malformed / unknown-task messages are never acknowledged by the code "
                "and are outside the statement (C01 covers them); hook failure is outside the quantifier, but the ack "
                "position / at-most-once theorems hold with raising hooks too. 'Task function finished' for a sync function "
@@ -25,7 +36,8 @@ META = dict(
                "+ vm_compute, the recorders in harness/drivers/pipeline_driver.py, asyncio task-step atomicity.",
     rule="case = 1-6 concurrent messages x ack type x ackable(sync/async/none) x outcome x stack; non-trivial iff some "
          "ackable well-formed message has an outcome other than plain return, or a failing backend, or runs concurrently "
-         "with another message; distinct by canonical case",
+         "with another message; distinct by canonical case. Second family: case = receiver scenario (harness/recv_props.py) run through "
+         "listen(); non-trivial iff finite max_async_tasks and >= 2 ackable valid messages without failing hooks",
     trusted_base=["model: coq/theories/Pipeline.v (hand-written transcription of Receiver.callback / run_task)",
                   "recorders and shims of harness/drivers/pipeline_driver.py (time() marks, base-class hook loggers)",
                   "asyncio.wait_for / thread-pool behaviour as modelled by body_run (exercised, not verified)"],
@@ -46,6 +58,147 @@ def nontrivial(case):
 ORACLES = [L.oracle_c02]
 
 
+# ------------------------------------------------------------------------------------------------------------------
+# Second family: the statement over whole worker runs.  The real Receiver.listen() (prefetcher, hand-over queue, runner,
+# one callback task per message) is driven by harness/drivers/recv_driver.py on scenarios of harness/recv_props.py; the
+# oracle reads nothing but the raw log of the ack callables / task bodies / result backend the scripted broker supplied.
+# (Family one calls receiver.callback itself, one asyncio task per message: whatever the runner does between taking a
+# message from the queue and its callback - which message object a callback task gets - is invisible there.)
+PROF_LISTEN = dict(limited_only=True, backlog=True, A_choices=[1, 2, 2, 3, 3, 4], P_choices=[0, 1, 2, 2, 2, 3, 3, 4], equal_p=.5, stop_p=.3, n_p=.15, ends_p=.15,
+                   wtt_p=.1, slowcancel=.1, aw_p=.15, outage_p=.08, wire_p=.1)
+PROF_LISTEN_MIX = dict(equal_p=.3, stop_p=.4, n_p=.25, ends_p=.2, wtt_p=.15, aw_p=.15, wire_p=.1)
+
+
+in_quantifier = R.ack_in_quantifier
+
+
+def oracle_listen(sc, obs):
+    """C02 over the raw log of one listen() run (positions = indices of the one global log, so every prefix of the log is
+    a crash point):
+      never twice   - no ack callable is invoked more than once (any message);
+      not before    - when_received: the task function does not start before the ack callable was invoked;
+                      when_executed: the ack callable is not invoked before the task function has finished: its body has
+                      really ended (body.out), or its timeout label has expired (entry instant + timeout);
+                      when_saved (the default): not before the attempt to store the result has completed (save.end of an
+                      attempt that is made at any time in the run), or - no attempt at all (no-result outcome) - not before
+                      the task function has finished;
+      exactly once  - a message of the quantifier whose processing is complete (its callback has ended) has exactly one
+                      COMPLETED acknowledgement by then; when listen() has returned after draining (no wait_tasks_timeout)
+                      every such message that was taken from the broker has exactly one."""
+    out = []
+    f = R.Facts(sc, obs)
+    msgs = sc["msgs"]
+    at = sc.get("ack_type") or "when_saved"
+    pos = {}
+    for k, e in enumerate(f.raw):
+        if e[1] in ("ack", "ack.end", "body.in", "body.out", "save", "save.end", "cb.end"):
+            pos.setdefault((e[1], e[2]), []).append(k)
+    ret_k = next((k for k, e in enumerate(f.raw) if e[1] == "RETURN"), None)
+    for i, m in enumerate(msgs):
+        acks = pos.get(("ack", i), [])
+        sig = dict(msg=i, ack_type=at)
+        if len(acks) > 1:
+            out.append(dict(what="C02/listen: the acknowledge callback of one message was called %d times" % len(acks),
+                            observed=dict(msg=i, ack_calls_at_us=f.acks.get(i), never_acknowledged=[
+                                j for j, x in enumerate(msgs) if in_quantifier(x) and j in f.take_t and not f.acks.get(j)]),
+                            expected="exactly one call", sig=dict(sig, kind="twice")))
+            continue
+        if m["kind"] != "ok" or m.get("ack", "none") == "none":
+            continue
+        bin_, bout = pos.get(("body.in", i), []), pos.get(("body.out", i), [])
+        if at == "when_received":
+            if bin_ and not (acks and acks[0] < bin_[0]):
+                out.append(dict(what="C02/listen: when_received - the task function started before the acknowledgement",
+                                observed=dict(msg=i), expected="ack call before body entry", sig=dict(sig, kind="received")))
+        elif acks:
+            a = acks[0]
+            tl = m.get("tlabel_us")
+            executed = (not bin_) or any(k < a for k in bout) or \
+                (tl is not None and tl < m["dur"] and f.raw[a][0] >= f.raw[bin_[0]][0] + tl)
+            if at == "when_executed":
+                if bin_ and not executed:
+                    out.append(dict(what="C02/listen: when_executed - acknowledged before the task function finished",
+                                    observed=dict(msg=i, ack_at_us=f.raw[a][0]), expected="ack call after the body ended / timed out",
+                                    sig=dict(sig, kind="executed")))
+            else:
+                saves, send = pos.get(("save", i), []), pos.get(("save.end", i), [])
+                ok = any(k < a for k in send) if saves else executed
+                if not ok:
+                    out.append(dict(what="C02/listen: when_saved - acknowledged before the save attempt completed / was skipped",
+                                    observed=dict(msg=i, ack_at_us=f.raw[a][0], save_attempts_at_us=f.save.get(i)),
+                                    expected="ack call after save.end (or after the body when nothing is saved)",
+                                    sig=dict(sig, kind="saved")))
+        if not in_quantifier(m):
+            continue
+        ce = pos.get(("cb.end", i), [])
+        done = [k for k in pos.get(("ack.end", i), [])]
+        if ce and len([k for k in done if k < ce[0]]) != 1:
+            out.append(dict(what="C02/listen: processing of an ackable message is complete but it is not acknowledged exactly once",
+                            observed=dict(msg=i, acks_completed=len([k for k in done if k < ce[0]]), ack_calls=len(acks)),
+                            expected=1, sig=dict(sig, kind="once")))
+        elif not ce and ret_k is not None and sc.get("wtt_us") is None and i in f.take_t and \
+                len([k for k in done if k < ret_k]) != 1:
+            out.append(dict(what="C02/listen: listen() returned after draining but a message taken from the broker was never acknowledged",
+                            observed=dict(msg=i, acks_completed=len([k for k in done if k < ret_k]), callback_started=bool(f.cbstart.get(i))),
+                            expected=1, sig=dict(sig, kind="once")))
+    return out
+
+
+def back_to_back(obs):
+    """number of times the runner dispatched two queued messages in one task step (nothing but its own slot acquisition,
+    permit release and queue read between two task creations)"""
+    n, own = 0, False
+    for e in obs["raw"]:
+        if e[1] == "spawn":
+            if own:
+                n += 1
+            own = True
+        elif not (e[1] == "q.get" or (e[1] in ("sem.acq", "semp.rel") and e[2] == "rn")):
+            own = False
+    return n
+
+
+def nontrivial_listen(sc):
+    return R.limited(sc) and sum(1 for m in sc["msgs"] if in_quantifier(m)) >= 2
+
+
+def explore_listen(ctx, rep, scs, label):
+    obss = C.run_driver(ctx, "recv_driver", scs)
+    for sc, o in zip(scs, obss):
+        rep.case(sc, nontrivial_listen(sc))
+        if "_crash" in o:
+            rep.fail("driver crashed", sc, observed=o["_crash"])
+            continue
+        for f in oracle_listen(sc, o):
+            rep.fail(f["what"], sc, observed=f["observed"], expected=f["expected"], sig=f["sig"])
+        R.count_inputs(rep, sc)
+        rep.count("listen:ack_type=%s" % sc.get("ack_type"))
+        rep.count("listen:max_prefetch%s" % (">=1" if sc["P"] else "=0"))
+        rep.count("listen:config=" + ("command-line" if sc.get("cli") is not None else "run_receiver_task" if sc.get("api") is not None
+                                      else "direct"))
+        b = back_to_back(o)
+        rep.count("listen:runner-dispatched-two-messages-in-one-step:%s" % ("never" if not b else "1-2" if b < 3 else "3+"))
+        fx = R.Facts(sc, o)
+        for i, m in enumerate(sc["msgs"]):
+            if in_quantifier(m) and fx.cbend.get(i):
+                rep.count("listen:ackable-message-processed:%s/%s" % (sc.get("ack_type") or "default", (
+                    "timeout" if m.get("tlabel_us") is not None and m["tlabel_us"] < m["dur"] else m["out"]) +
+                    ("/save-fails" if m.get("save_fail") else "")))
+        rep.count("listen:" + ("returned" if o["returned"] else "cut"))
+        rep.traces += 1
+
+
+def with_worker_options(case):
+    """family one, command-line cases: further worker options that do not configure the Receiver are mixed into the argv
+    (own generator seeded with a hash of the case: the case stream itself is what it was)"""
+    if case.get("cli") is not None:
+        rr = random.Random(zlib.crc32(json.dumps(case, sort_keys=True).encode()) ^ 0xC0F16)
+        if rr.random() < .5:
+            case["cli"], _ = add_harmless(case["cli"], rr)
+            case["cli_more"] = True
+    return case
+
+
 def run(ctx):
     rep = C.Report(ctx, META)
     rep.add_obligations(C.proof_obligations("C02"))
@@ -53,10 +206,17 @@ def run(ctx):
     src_obs, src_info = srctie.obligations(ctx, "callback", "C02")
     rep.add_obligations(src_obs)
     rep.extra["source_tie"] = src_info
-    L.explore(ctx, rep, "C02", L.load_corpus_cases("C02"), "corpus", ORACLES, nontrivial)
+    L.explore(ctx, rep, "C02", [c for c in L.load_corpus_cases("C02") if not is_listen_case(c)], "corpus", ORACLES, nontrivial)
     r = ctx.sub_rng("gen")
-    broken = L.explore(ctx, rep, "C02", [L.gen_recv(r, "c02") for _ in range(ctx.n(900, 20000))], "main", ORACLES,
-                       nontrivial)
+    cases = [with_worker_options(L.gen_recv(r, "c02")) for _ in range(ctx.n(900, 20000))]
+    rep.extra["command_line_cases_with_further_worker_options"] = sum(1 for c in cases if c.get("cli_more"))
+    broken = L.explore(ctx, rep, "C02", cases, "main", ORACLES, nontrivial)
+    # second family: whole listen() runs (own random stream)
+    rl = ctx.sub_rng("gen-listen")
+    lcorp = [c for _, c in C.load_corpus("C02") if is_listen_case(c)]
+    if lcorp:
+        explore_listen(ctx, rep, [c["case"] if "case" in c else c for c in lcorp], "corpus:listen")
+    explore_listen(ctx, rep, [R.gen_scenario(rl, PROF_LISTEN if i % 4 else PROF_LISTEN_MIX) for i in range(ctx.n(260, 12000))], "listen")
     if (broken or any(not o["ok"] for o in rep.obligations)) and not rep.failures:
         r2 = ctx.sub_rng("search")
         L.explore(ctx, rep, "C02", [L.gen_recv(r2, "c02") for _ in range(ctx.n(5000, 60000))], "search", ORACLES,
@@ -64,5 +224,12 @@ def run(ctx):
     return L.finish(rep, "C02")
 
 
+def is_listen_case(rec):
+    c = rec["case"] if "case" in rec else rec
+    return "horizon_us" in c
+
+
 def replay(ctx, path):
+    if is_listen_case(json.load(open(path))):
+        return R.replay_print(ctx, path, oracle_listen, "C01_check")
     return L.replay(ctx, path, ORACLES)
